@@ -255,6 +255,9 @@ def main():
         if r.get('first_ok_size') is not None and len(firsts) < 40:
             firsts[r['name']] = r['first_ok_size']
     run_tasks(rep, tasks, worker=sweep_task, limit=900, on_result=on_result)
+    # layer 3: the Tracker arithmetic behind every guard constant (CrossHair, symbolic operation sequences)
+    from hv import chx
+    chx.run_into(rep, 'c04', per_condition_timeout=120 if quick else 1200)
     rep.cov['stack_sizes_explored'] = nsizes[0]
     rep.cov['slowest_templates'] = sorted(slow, reverse=True)[:8]
     rep.cov['first_non_overflow_size_words'] = firsts
@@ -264,7 +267,7 @@ def main():
     rep.rule = ('allocation-site templates (array literal of each element type, nested literal, literal with call elements, VLA of each type, in loops and try bodies, every '
                 'library routine as callee, recursion, defeat functions) + scope/sequential/time-travel slices; each compiled at every stack size from 0 words up to the size '
                 'after which overflow behaviour equals the generous stack for 3 consecutive sizes (all sizes up to G for allocation templates in the thorough tier)')
-    rep.functions_encoded = ['function-entry guard, VLA guards, Tracker-derived constants, array literal allocation, index checks, stdlib routines (write_int digit buffer) as emitted for each template and size']
+    rep.functions_encoded = ['hidc/codegen/tracker.py Tracker.add/update/push_level/pop_level (CrossHair)', 'function-entry guard, VLA guards, Tracker-derived constants, array literal allocation, index checks, stdlib routines (write_int digit buffer) as emitted for each template and size']
     rep.bounds = dict(word_sizes=sorted(set(t['word'] for t in tasks)), stack_sizes='0..G words, G = 56', instructions_per_path=8000,
                       outside='stack sizes above G are not enumerated (the emitted code depends on the size only through .zero and label addresses); programs outside the families')
     rep.assumptions = ['Sphinx machine model (DESIGN section 3)', 'region classification: [fp]-based = frame traffic; other computed origins = element access; library code may use [ap, fp) below its frame',
